@@ -16,6 +16,7 @@ TRANSPARENT = set(hir.TRANSPARENT_METHODS) | {
     "next",
     "skip",
     "rev",
+    "flatten",  # over Option elements: what it yields are the payloads of the elements
     "collect",
     "trim",
     "ok",
@@ -382,6 +383,21 @@ class Prov:
             if r[0] == "ctor":
                 # a constructor used as a function value (e.g. `.map_or(op, Expr::Ident)`)
                 res.add((("ctor-applied", r[1]), p))
+            elif r[0] == "closure" and len(r) >= 4 and p == () and ("clres", r[1], r[2], r[3]) not in stack:
+                # a closure handed in as a function value (`fn map(self, wrap: impl FnOnce(T) -> U)` called with
+                # `|x| Wrapper { inner: x }`): what it yields, read where it was written
+                g_ = self.prog.by_def.get(r[1])
+                try:
+                    node_ = g_.by_id(r[2]) if g_ is not None else None
+                except KeyError:
+                    node_ = None
+                if node_ is not None and node_.get("k") == "Closure":
+                    got = set()
+                    for v in return_exprs(node_["body"]):
+                        got |= self.origins(g_, v, r[3], tuple(stack) + (("clres", r[1], r[2], r[3]),))
+                    res |= got or {(("unit",), ())}
+                else:
+                    res.add(((("applied",) + tuple(r)), p))
             else:
                 res.add(((("applied",) + tuple(r)), p))
         return res
